@@ -108,6 +108,41 @@ pub fn run(env: &Env, prop: &str, tier: &str) -> i32 {
         fuzz_stats = fo.stats;
     }
     rep.notes.push(format!("libfuzzer: {fuzz_stats}"));
+    if prop == "C12" {
+        // the premise of the property: Eq/Ord on a float newtype is only permitted together with `finite`
+        let units = vmodel::cf::c12_gate_units();
+        let res = match crate::cf::verdicts(env, &env.work.join("gen/c12gate"), "c12g", &units, false, false) {
+            Ok(r) => r,
+            Err(e) => {
+                eprintln!("INCONCLUSIVE: {e}");
+                return 2;
+            }
+        };
+        let (viols, drift) = crate::cprops::judge_with_drift("C12", &units, &res);
+        rep.evaluations += units.len() as u64;
+        rep.nontrivial += units.len() as u64;
+        *rep.classes.entry("derive-gate-unit-rejected".into()).or_insert(0) += units.iter().filter(|u| u.expect == vmodel::cf::Expect::Reject).count() as u64;
+        *rep.classes.entry("derive-gate-control-accepted".into()).or_insert(0) += units.iter().filter(|u| u.expect == vmodel::cf::Expect::Accept).count() as u64;
+        if let Some(u) = units.iter().find(|u| u.class.contains("custom")) {
+            rep.samples.push(json!({"class": "derive-gate", "decl": u.decl, "family": "float", "expected_verdict": "rejected by rustc", "case": {"unit": u.class}}));
+        }
+        if !drift.is_empty() {
+            rep.notes.push(format!("derive gate: rejections with an unexpected diagnostic: {drift:?}"));
+        }
+        for v in viols {
+            rep.viols.push(vlib_report::Viol {
+                prop: "C12".into(),
+                decl_id: v.unit.id.clone(),
+                type_name: "T".into(),
+                decl: v.unit.decl.clone(),
+                signature: v.signature.clone(),
+                case: crate::cprops::case_json("C12", &v, false),
+                expected: v.expected.clone(),
+                actual: v.actual.clone(),
+                shrunk: "none".into(),
+            });
+        }
+    }
     finish(env, prop, tier, &decls, &built, rep, t0)
 }
 
@@ -312,7 +347,7 @@ fn finish(
             // declaration-level shrinking for the first few violations (VERIF_SHRINK=0 disables)
             let mut decls_for_replay: Vec<vmodel::Decl> = decls.to_vec();
             let mut shrunk_note = String::new();
-            if printed < 3 && std::env::var("VERIF_SHRINK").map_or(true, |s| s != "0") {
+            if printed < 3 && v.case["kind"].as_str() != Some("compile-verdict") && std::env::var("VERIF_SHRINK").map_or(true, |s| s != "0") {
                 if let Some((small, steps)) = shrink_decl(env, decls, v) {
                     shrunk_note = format!("  shrunk declaration ({steps} removal step(s)): {}", small.decl_text().replace('\n', " "));
                     if let Some(slot) = decls_for_replay.iter_mut().find(|d| d.id == small.id) {
@@ -321,7 +356,14 @@ fn finish(
                 }
             }
             let decls = &decls_for_replay[..];
-            let dir = write_replay(env, decls, v, tier);
+            let dir = if v.case["kind"].as_str() == Some("compile-verdict") {
+                let dir = env.verif.join("replays").join(format!("{}-{}", v.prop, short_hash(&format!("{}|{}", v.signature, v.case["source"]))));
+                std::fs::create_dir_all(&dir).ok();
+                std::fs::write(dir.join("case.json"), serde_json::to_string_pretty(&v.case).unwrap()).expect("replay");
+                dir
+            } else {
+                write_replay(env, decls, v, tier)
+            };
             println!("VIOLATION property={prop} replay={}", dir.display());
             println!("  signature: {}", v.signature);
             println!("  declaration: {}", v.decl.replace('\n', " "));
